@@ -401,6 +401,15 @@ func structsEqual(x, y any) (err error) {
 		ytf := yrt.Field(i)
 		yvf := yrv.Field(i)
 
+		// private fields cannot be read through
+		// reflection; skip them rather than panic.
+		if xtf.PkgPath != `` || ytf.PkgPath != `` {
+			if xtf.Name != ytf.Name {
+				err = errorf("Struct field name mismatch")
+			}
+			continue
+		}
+
 		xn := xtf.Name
 		yn := ytf.Name
 
